@@ -45,6 +45,11 @@ class Prop(common.PropertyCheck):
             lad = i % len(LADDERS)
             yield {'k': 'recover', 'm': rng.uniform(0.85, 1.25), 'b': rng.uniform(0, 7), 'af': 'max', 'af_frac': rng.uniform(0.3, 0.999), 'ladder': lad, 'drop': 0,
                    'drop_dim': len(LADDERS[lad]) - 1 - 5, 'blank': False, 'mef_form': 'float'}
+        # a wide ladder with dim stained peaks, a blank, a dim autofluorescence and a sub-linear slope: the blank lies more than five decades below the brightest peak
+        wide = [0, 130, 400, 1300, 4200, 13000, 42000, 130000, 400000, 800000]
+        for i in range(self.budget(36, 300)):
+            yield {'k': 'recover', 'm': [0.85, 0.88, 0.9, 0.93, 0.86, 0.95][i % 6], 'b': [0.5, 2.0, 4.0][(i // 6) % 3], 'af': [1.0, 2.0, 5.0, 12.0][(i // 2) % 4], 'ladder': 4, 'ladder_custom': wide,
+                   'drop': [0, 0, 1][i % 3], 'blank': True, 'mef_form': 'float'}
         for _ in range(self.budget(2500, 40000)):
             yield {'k': 'struct', 'n': rng.randrange(3, 9), 'kind': rng.choice(['convex', 'convex', 'noisy', 'random', 'concave']), 'seed': rng.randrange(1 << 30)}
         for bad in ('two', 'one', 'len', 'len1_mef', 'len1_rfi', 'scalar_mef', 'scalar_rfi'):
@@ -73,7 +78,7 @@ class Prop(common.PropertyCheck):
                 except Exception as e:
                     return {'raised': type(e).__name__}
             if k == 'recover':
-                mef = np.array(LADDERS[case['ladder']], dtype=float)
+                mef = np.array(case.get('ladder_custom') or LADDERS[case['ladder']], dtype=float)
                 if not case['blank']:
                     mef = mef[1:]
                 if case['drop']:
